@@ -1187,26 +1187,68 @@ func (o onlyReader) ReadUDP(c *net.UDPConn, t time.Duration) ([]byte, *dns.Sessi
 }
 
 // A generic PacketConn with a DecorateReader whose Reader lacks ReadPacketConn:
-// serveUDP returns an error before its loop.  The server is then not serving;
-// Shutdown must not block.
+// serveUDP returns an error before its loop.  The server is then not serving:
+// Shutdown must return the not-started error at once and a new start must work.
 func failedStart() {
+	base := runtime.NumGoroutine()
 	w := newWorld("udp")
-	srv := &dns.Server{PacketConn: w.pc, Handler: dns.HandlerFunc(w.handler)}
-	srv.DecorateReader = func(r dns.Reader) dns.Reader { return onlyReader{r.ReadTCP, r.ReadUDP} }
-	err := srv.ActivateAndServe()
+	good := w.srv.DecorateReader
+	w.srv.DecorateReader = func(r dns.Reader) dns.Reader { return onlyReader{r.ReadTCP, r.ReadUDP} }
+	plan := []string{"failed start", "Shutdown", "start again", "Shutdown"}
+	w.log("si.0")
+	err := w.srv.ActivateAndServe()
 	in := map[string]any{"setup": "Server{PacketConn: generic net.PacketConn, DecorateReader: returns a Reader without ReadPacketConn}", "activate_error": fmt.Sprint(err)}
-	if err == nil {
+	if err == nil || !strings.Contains(err.Error(), "PacketConnReader") {
+		Viol("C13/failed-start-no-error", "ActivateAndServe did not report the missing PacketConnReader", in)
 		return
 	}
+	w.log("fs")
 	st["failed_start_checked"]++
 	ctx, cancel := context.WithTimeout(context.Background(), 1500*time.Millisecond)
 	defer cancel()
 	t0 := time.Now()
-	serr := srv.ShutdownContext(ctx)
+	w.log("di.1")
+	serr := w.srv.ShutdownContext(ctx)
 	in["shutdown_error"] = fmt.Sprint(serr)
 	in["shutdown_took_ms"] = time.Since(t0).Milliseconds()
-	if serr == context.DeadlineExceeded {
+	switch {
+	case serr == context.DeadlineExceeded:
 		Viol("C13/shutdown-blocks-after-failed-start",
 			"ActivateAndServe returned an error (serve loop never ran) but left srv.started set: Shutdown waits for a channel nobody closes, until its context expires (for ever with Shutdown())", in)
+		return
+	case serr == nil || !strings.Contains(serr.Error(), "not started"):
+		Viol("C13/shutdown-unstarted-no-error", "Shutdown after a failed start did not return the not-started error", in)
+		return
 	}
+	w.log("dr.1.2")
+	// a new start is possible (on a new PacketConn: the failed serveUDP closed the old one)
+	w.pc = &fakePC{w: w}
+	w.pc.cond = sync.NewCond(&w.pc.mu)
+	w.srv.PacketConn = w.pc
+	w.srv.DecorateReader = good
+	w.start(2)
+	if !w.waitFor("n", 1) {
+		w.mu.Lock()
+		refused := w.count("se.2") > 0
+		w.mu.Unlock()
+		in["events"] = w.events()
+		if refused {
+			Viol("C13/shutdown-blocks-after-failed-start", "after a failed start a new ActivateAndServe is refused with 'server already started'", in)
+		} else {
+			Viol("C13/stuck", "a start after a failed start did not reach NotifyStartedFunc", in)
+		}
+		return
+	}
+	w.request(5, 1, true)
+	w.shutdown(3, false)
+	w.waitShutdownSeen()
+	w.release(5)
+	w.waitFor("dr.3.0", 1)
+	w.waitFor("sr.0", 1)
+	if w.stuck != "" {
+		Viol("C13/stuck", "restart after a failed start: "+w.stuck, map[string]any{"events": w.events()})
+		return
+	}
+	w.settle("failed-start", base, plan)
+	w.judge("failed-start", plan, false)
 }
